@@ -399,6 +399,77 @@ def first_command_scenario(point, stats):
         pr.destroy()
 
 
+def log_viewer_killed_scenario(when):
+    """Exactly one redo process is killed: the `redo-log` child of the top-level command (the log viewer), at one of
+    three instants of a build (while the first script runs, between two targets, right before the last script ends).
+    The build goes on without its viewer; whatever it does, the state it leaves must be recoverable: the next
+    redo-ifchange exits 0, every target is right, nothing is taken for hand-modified, and later edits are reacted to."""
+    import subprocess, signal, time as _t
+    pr = Project()
+    try:
+        pr.write("a", "a1\n")
+        pr.write("mid.do", "redo-ifchange a\ntouch mid.started\nsleep 0.8\ncat a\n")
+        pr.write("top.do", "redo-ifchange mid\ntouch top.started\nsleep 0.8\ncat mid\necho top\n")
+        env = clean_env()
+        p = subprocess.Popen(["redo", "top"], cwd=pr.root, env=env, stdout=subprocess.PIPE, stderr=subprocess.PIPE, stdin=subprocess.DEVNULL, start_new_session=True)
+        marker = {"first-script": "mid.started", "second-script": "top.started", "late": "top.started"}[when]
+        for _ in range(200):
+            if os.path.exists(pr.path(marker)):
+                break
+            _t.sleep(0.02)
+        if when == "late":
+            _t.sleep(0.6)
+        killed = 0
+        for pid in os.listdir("/proc"):
+            if not pid.isdigit():
+                continue
+            try:
+                st = open("/proc/%s/stat" % pid).read()
+                cmd = open("/proc/%s/cmdline" % pid, "rb").read().split(b"\0")
+                ppid = int(st[st.rindex(")") + 2:].split()[1])
+            except (OSError, ValueError):
+                continue
+            if ppid == p.pid and cmd and os.path.basename(cmd[0].decode("utf-8", "replace")) == "redo-log":
+                try:
+                    os.kill(int(pid), signal.SIGKILL)
+                    killed += 1
+                except ProcessLookupError:
+                    pass
+        try:
+            out, err = p.communicate(timeout=30)
+            rc0 = p.returncode
+        except subprocess.TimeoutExpired:
+            os.killpg(p.pid, signal.SIGKILL)
+            out, err = p.communicate()
+            rc0 = -999
+        try:
+            os.killpg(p.pid, signal.SIGKILL)
+        except (ProcessLookupError, PermissionError):
+            pass
+        problems = []
+        info = dict(when=when, viewer_killed=killed, rc_of_the_build=rc0)
+        if not killed:
+            return [], info
+        rc1, o1, e1 = pr.run(["redo-ifchange", "top"], timeout=40)
+        if rc1 != 0:
+            problems.append("the recovery `redo-ifchange top` exited %d" % rc1)
+        if "you modified it" in e1:
+            problems.append("the recovery run takes a file redo itself installed for hand-modified")
+        if pr.read("top") != b"a1\ntop\n":
+            problems.append("after the recovery run top holds %r" % pr.read("top"))
+        pr.write("a", "a2\n")
+        rc2, o2, e2 = pr.run(["redo-ifchange", "top"], timeout=40)
+        if rc2 != 0 or pr.read("top") != b"a2\ntop\n" or "you modified it" in e2:
+            problems.append("after an edit of the source `redo-ifchange top` exits %d and top holds %r%s" % (rc2, pr.read("top"), " ('you modified it; skipping')" if "you modified it" in e2 else ""))
+        leftovers = [f for f in os.listdir(pr.root) if f.endswith(".redo.tmp")]
+        if leftovers:
+            problems.append("temporary files left: %r" % leftovers)
+        info["stderr_of_the_build"] = err.decode("utf-8", "replace")[-600:]
+        return problems, info
+    finally:
+        pr.destroy()
+
+
 def kill_window_matcher(listed_under):
     """Matcher for the two recorded findings of the "two-stage commit" family, as listed in known_findings.json under
     property `listed_under` (C10, and C01 — whose histories contain killed builds too)."""
@@ -523,6 +594,19 @@ def run(ctx):
             break
         cov["distribution"]["script_kill"] = dict(cases=len(cases), **stats)
         cov["evaluations"] += len(cases)
+    # (2a'') exactly one process killed: the log viewer of the top-level command
+    if not viol:
+        hit = 0
+        for when in ("first-script", "second-script", "late"):
+            problems, info = log_viewer_killed_scenario(when)
+            hit += info.get("viewer_killed", 0)
+            if problems:
+                p = write_replay("C10", "viewer-kill-%s" % when, dict(kind="impl-monitor", info=info, problems=problems,
+                                                                      scenario="a -> mid -> top (each script sleeps 0.8 s); `redo top`; kill -9 of ONLY its redo-log child (%s); then redo-ifchange top; edit a; redo-ifchange top" % when))
+                viol.append(Violation("C10", p, "kill -9 of only the log viewer of `redo top` (%s): %s" % (when, "; ".join(problems[:3]))))
+                break
+        cov["distribution"]["viewer_kill"] = dict(cases=3, viewers_killed=hit)
+        cov["evaluations"] += 3
     # (2b) a `$3` left behind by a killed build
     if not viol:
         probs = stale_tmp_scenario()
